@@ -35,6 +35,7 @@ type legit struct {
 	name string
 	mk   func() age.Identity // returns a NEW identity object of a listed recipient
 	ref  refage.Key          // reference counterpart (nil for passphrase-protected SSH keys)
+	half string              // public half (see gen.go)
 }
 
 type subject struct {
@@ -151,8 +152,8 @@ func (h *historyRun) run(s *subject, other *subject) {
 			// the legitimate identity of this file is a wrong identity for the other
 			// file (and vice versa) unless it is listed there too
 			if !sharesRecipient(s, other) {
-				h.wrong(other.f, "legit-of-one-file-on-the-other", by, []ident{{desc: "legit(" + L.name + ") object used above", kind: legitKind(s, L), id: obj2, ref: L.ref}})
-				h.wrong(s.f, "legit-of-one-file-on-the-other", by, []ident{{desc: "legit(" + other.legits[0].name + ") object used above", kind: legitKind(other, other.legits[0]), id: oid, ref: other.legits[0].ref}})
+				h.wrong(other.f, "legit-of-one-file-on-the-other", by, []ident{{desc: "legit(" + L.name + ") object used above", kind: legitKind(s, L), id: obj2, ref: L.ref, half: L.half}})
+				h.wrong(s.f, "legit-of-one-file-on-the-other", by, []ident{{desc: "legit(" + other.legits[0].name + ") object used above", kind: legitKind(other, other.legits[0]), id: oid, ref: other.legits[0].ref, half: other.legits[0].half}})
 			}
 		}
 	}
@@ -193,11 +194,11 @@ func sharesRecipient(a, b *subject) bool {
 func legitOf(name string) legit {
 	switch name[0] {
 	case 'X':
-		return legit{name, func() age.Identity { return keys.NewX(name).Identity() }, keys.P(name).Ref}
+		return legit{name, func() age.Identity { return keys.NewX(name).Identity() }, keys.P(name).Ref, partyHalf(name)}
 	case 'E':
-		return legit{name, func() age.Identity { return keys.LoadEd("ed" + name[1:]).Identity() }, keys.P(name).Ref}
+		return legit{name, func() age.Identity { return keys.LoadEd("ed" + name[1:]).Identity() }, keys.P(name).Ref, partyHalf(name)}
 	case 'R':
-		return legit{name, func() age.Identity { return keys.LoadRSA("rsa" + name[1:]).Identity() }, keys.P(name).Ref}
+		return legit{name, func() age.Identity { return keys.LoadRSA("rsa" + name[1:]).Identity() }, keys.P(name).Ref, partyHalf(name)}
 	}
 	panic("legitOf " + name)
 }
@@ -262,7 +263,7 @@ func (m *monitor) historySubjects() []*subject {
 		p := p
 		name := fmt.Sprintf("S%d(logN=%d)", i, p.logN)
 		f, err := m.encryptCase(fmt.Sprintf("history passphrase=%q logN=%d", p.pass, p.logN), "S", pt(name, 40+i), i%2 == 1,
-			refage.ScryptKey{Pass: p.pass}, keys.ScryptRecipient(p.pass, p.logN))
+			refage.ScryptKey{Pass: p.pass}, []string{passHalf(p.pass)}, keys.ScryptRecipient(p.pass, p.logN))
 		var near [][]ident
 		rs := []rune(p.pass)
 		last := string(rs[:len(rs)-1]) + string(substitute(rs[len(rs)-1], 1))
@@ -271,11 +272,11 @@ func (m *monitor) historySubjects() []*subject {
 		for _, q := range passes {
 			cands = append(cands, q.pass)
 		}
-		seen := map[string]bool{p.pass: true, "": true}
+		seen := map[string]bool{passHalf(p.pass): true, passHalf(""): true}
 		var nearIds []ident
 		for _, c := range cands {
-			if !seen[c] {
-				seen[c] = true
+			if c != "" && !seen[passHalf(c)] {
+				seen[passHalf(c)] = true
 				nearIds = append(nearIds, passIdent(c))
 			}
 		}
@@ -284,7 +285,7 @@ func (m *monitor) historySubjects() []*subject {
 		}
 		near = append(near, nearIds[:2], []ident{nearIds[2], xIdent(freshX("hist-s-" + name)), nearIds[0], nearIds[1]})
 		add(&subject{name: name, f: f, wrong: m.wrongLists(name, nil, near...),
-			legits: []legit{{name: "S:" + p.pass, mk: func() age.Identity { return keys.ScryptIdentity(p.pass, 0) }, ref: refage.ScryptKey{Pass: p.pass}}}}, err)
+			legits: []legit{{name: "S:" + p.pass, mk: func() age.Identity { return keys.ScryptIdentity(p.pass, 0) }, ref: refage.ScryptKey{Pass: p.pass}, half: passHalf(p.pass)}}}, err)
 	}
 
 	// native keys, alone and in mixes; one-bit secret variants and near-miss
@@ -301,7 +302,7 @@ func (m *monitor) historySubjects() []*subject {
 			}
 		}
 		owner := keys.NewX(l[0])
-		f, err := m.encryptCase("history list="+keys.Names(ps), kindSet(ps), pt(name, 60+i), i == 1, owner.Ref, keys.Recipients(ps)...)
+		f, err := m.encryptCase("history list="+keys.Names(ps), kindSet(ps), pt(name, 60+i), i == 1, owner.Ref, wantOf(ps), keys.Recipients(ps)...)
 		v := func(k int) ident {
 			return xIdent(keys.XFromSecret(fmt.Sprintf("%s^2^%d", owner.Label, k), flipBit(owner.Secret, k)))
 		}
@@ -313,7 +314,7 @@ func (m *monitor) historySubjects() []*subject {
 				if perr != nil {
 					continue
 				}
-				sf, serr := m.encryptCase(fmt.Sprintf("history near-miss recipient of %s k=%d %s", owner.Label, k, rcStr), "X", pt(fmt.Sprintf("%s-sib%d", name, k), 30), false, nil, rc)
+				sf, serr := m.encryptCase(fmt.Sprintf("history near-miss recipient of %s k=%d %s", owner.Label, k, rcStr), "X", pt(fmt.Sprintf("%s-sib%d", name, k), 30), false, nil, []string{xHalf(flipBit(owner.Public, k))}, rc)
 				if serr != nil {
 					continue
 				}
@@ -342,7 +343,7 @@ func (m *monitor) historySubjects() []*subject {
 				}
 			}
 		}
-		f, err := m.encryptCase("history list="+keys.Names(ps), kindSet(ps), pt(name, 80+i), i%2 == 0, opener, keys.Recipients(ps)...)
+		f, err := m.encryptCase("history list="+keys.Names(ps), kindSet(ps), pt(name, 80+i), i%2 == 0, opener, wantOf(ps), keys.Recipients(ps)...)
 		add(&subject{name: name, f: f, legits: lg, wrong: m.wrongLists(name, in)}, err)
 	}
 
@@ -360,10 +361,10 @@ func (m *monitor) historySubjects() []*subject {
 		if n == "enc_rsa1" {
 			kind, others = "R", []string{"enc_ed1", "enc_ed2"}
 		}
-		f, err := m.encryptCase("history recipient="+n+".pub", kind, pt(n, 90+i), i == 0, nil, rc)
+		f, err := m.encryptCase("history recipient="+n+".pub", kind, pt(n, 90+i), i == 0, nil, []string{sshFileHalf(n)}, rc)
 		extra := [][]ident{{m.encIdent(others[0])}, {m.encIdent(others[1]), partyIdent("E1")}}
 		add(&subject{name: n, f: f, wrong: m.wrongLists(n, nil, extra...),
-			legits: []legit{{name: n, mk: func() age.Identity { return m.encIdent(n).id }}}}, err)
+			legits: []legit{{name: n, mk: func() age.Identity { return m.encIdent(n).id }, half: sshFileHalf(n)}}}, err)
 	}
 	return subs
 }
